@@ -29,6 +29,7 @@ REGISTRY = {
         "trust": "Trusts ref/e37 and ref/e5 (written from the standards) and the in-memory network handed to WithDialer/WithListener.",
         "technique": "property-based testing (rapid): differential vs reference encoders, round trip, wire == ToBytes on scripted connections in testing/synctest",
         "tests": [
+            {"name": "TestC03UndecodableBody", "shards": 2, "shards_thorough": 8},
             {"name": "TestC03Frames", "shards": 8, "shards_thorough": 16},
             {"name": "TestC03Wire", "shards": 4, "shards_thorough": 16},
             {"name": "TestC03Concurrent", "shards": 4, "shards_thorough": 16, "race": True, "crash_is_violation": True},
@@ -42,6 +43,7 @@ REGISTRY = {
         "trust": "Trusts ref/e37.ParseWhole and ref/fsm.Responder; virtual time (testing/synctest) makes T8 exact; the allocation meter is process-wide TotalAlloc with a 4 MiB threshold against >= 16 MiB claimed.",
         "technique": "property-based testing (rapid): acceptance-predicate differential + metamorphic segmentation invariance on scripted connections in testing/synctest; native go fuzzing (thorough)",
         "tests": [
+            {"name": "TestC04WireCap", "shards": 1, "crash_is_violation": True},
             {"name": "TestC03SizeCap", "shards": 1, "crash_is_violation": True},
             {"name": "TestC04Decode", "shards": 8, "shards_thorough": 16},
             {"name": "TestC04Stream", "shards": 8, "shards_thorough": 16},
@@ -101,6 +103,7 @@ REGISTRY = {
         "trust": "The fault menu above is HSMS-SS; SECS-I generations are covered by TestC09Secs1 (a send in flight while the line dies at a drawn protocol point). While the peer's window is closed the program is restricted to one writing goroutine (testing/synctest cannot advance time while a goroutine waits on the write mutex).",
         "technique": "property-based testing (rapid): generated fault plans x send programs on scripted connections in testing/synctest, generation-window invariant over the wire history",
         "tests": [
+            {"name": "TestC09BusyHandlerEnd", "shards": 2, "shards_thorough": 8, "crash_is_violation": True},
             {"name": "TestC09CloseAtRetry", "shards": 8, "shards_thorough": 16, "crash_is_violation": True},
             {"name": "TestC09StalledWriteEnd", "shards": 4, "shards_thorough": 8, "crash_is_violation": True},
             {"name": "TestC09LateAccept", "shards": 2, "shards_thorough": 8, "crash_is_violation": True},
